@@ -23,6 +23,7 @@
   and a decoder dictionary buffer of at least `min dict_size data.size` bytes.
 -/
 import LzmaVerif.Proofs.EncFastHc4
+import LzmaVerif.Proofs.EncFastBt4
 import LzmaVerif.Props.C01
 import LzmaVerif.Props.C01Mf
 
@@ -137,6 +138,92 @@ theorem fast_roundtrip_generated (pr : Params) (dict nice depth : Nat) (d : Arra
   fast_roundtrip_reader pr MfGen.hc4Params C01Mf.generated_hc4_params_ok MfGen.fastParams generated_fast_params_ok
     dict nice depth d hd1 h32 rest cap
 
+/-! ## the fast encoder over BT4 (`MFType::BT4` with `EncodeMode::Fast`) -/
+
+theorem fastParseBt4_eq (B : Bt4.Bt4Params) (P : FastParams) (hP : P.ok) (dict nice depth : Nat)
+    (d : Array UInt8) :
+    fastParseBt4 B P dict nice depth d =
+      fastParse (bt4Finder B { dict := dict, niceLen := nice, mlmax := 273, depth := depth }) P nice d := by
+  unfold fastParseBt4
+  rw [hP.2]
+
+/-- the hypotheses of the BT4 soundness theorem (`Bt4.HypA`) for the finder the LZMA encoder creates
+    (`match_len_max = 273`), from explicit decidable conditions on the options -/
+theorem bt4_hypA (B : Bt4.Bt4Params) (hB : B.ok) (dict nice depth : Nat) (d : Array UInt8)
+    (hd1 : 1 ≤ dict) (hsz : d.size + dict + 2 < 2 ^ 31) (hn1 : B.minAvailFinishing ≤ nice) (hn2 : nice ≤ 273) :
+    Bt4.HypA B { dict := dict, niceLen := nice, mlmax := 273, depth := depth } d :=
+  ⟨⟨hB, hd1, hsz, by have := Bt4.ok_avail4 hB; show 3 ≤ nice; omega, by show 3 ≤ 273; omega⟩, hn1, hn2⟩
+
+/-- **(F1, BT4)** the parse of the fast encoder over the BT4 match finder satisfies `parseRun` and denotes the
+    data: every input, every `depth_limit`, `1 ≤ dict_size`, `4 ≤ nice_len ≤ 273`, below the match finder's
+    renormalisation point (`data.size + dict_size + 2 < 2^31`; the normalisation is not part of the step model) -/
+theorem fast_parse_valid_bt4 (B : Bt4.Bt4Params) (hB : B.ok) (P : FastParams) (hP : P.ok)
+    (dict nice depth dictBuf : Nat) (d : Array UInt8)
+    (hd1 : 1 ≤ dict) (hdb : min dict d.size ≤ dictBuf) (hsz : d.size + dict + 2 < 2 ^ 31)
+    (hn1 : B.minAvailFinishing ≤ nice) (hn2 : nice ≤ 273) :
+    ∃ c' h', parseRun dictBuf (fastParseBt4 B P dict nice depth d) Coder.init (#[] : Hist) = some (c', h') ∧
+      h' = d.map (fun b => b.toNat) := by
+  rw [fastParseBt4_eq B P hP]
+  exact fastParse_valid_generic (bt4Sound B dict nice depth d (bt4_hypA B hB dict nice depth d hd1 hsz hn1 hn2))
+    P hP nice dictBuf hd1 hdb (by omega)
+
+/-- **(F2, BT4)**, declared size: BT4 finder + fast parser + range encoder + decoder return exactly the data and
+    consume exactly the encoder's bytes -/
+theorem fast_roundtrip_bt4 (pr : Params) (B : Bt4.Bt4Params) (hB : B.ok) (P : FastParams) (hP : P.ok)
+    (dict nice depth dictBuf : Nat) (d : Array UInt8)
+    (hd1 : 1 ≤ dict) (hdb : min dict d.size ≤ dictBuf) (hsz : d.size + dict + 2 < 2 ^ 31)
+    (hn1 : B.minAvailFinishing ≤ nice) (hn2 : nice ≤ 273)
+    (rest : List Nat) (cap : Nat) :
+    ∃ bytes, encodeParse pr dictBuf #[] (some d.size) (d.size + 1) (fastParseBt4 B P dict nice depth d) = some bytes ∧
+      decodeRaw pr dictBuf #[] (some d.size) (bytes ++ rest) cap
+        = .ok (d.map (fun b => b.toNat)) bytes.length (fastParseBt4 B P dict nice depth d) := by
+  obtain ⟨c', h', hp, hh⟩ := fast_parse_valid_bt4 B hB P hP dict nice depth dictBuf d hd1 hdb hsz hn1 hn2
+  have hpu := presetUsedOf_empty dictBuf
+  have hsz' : h'.size = d.size := by rw [hh, Array.size_map]
+  obtain ⟨bytes, he, hdec⟩ := C01.lzma_roundtrip_size pr dictBuf #[] (fastParseBt4 B P dict nice depth d) d.size
+    c' h' (by rw [hpu]; exact hp) (by rw [hpu, hsz']; simp only [List.size_toArray, List.length_nil, zero_add]) rest cap
+  rw [hpu] at he hdec
+  refine ⟨bytes, he, ?_⟩
+  rw [hdec]
+  have : h'.extract (#[] : Array Nat).size h'.size = h' := by
+    simp only [List.size_toArray, List.length_nil, Array.extract_size]
+  rw [this, hh]
+
+/-- **(F2, BT4)**, end marker -/
+theorem fast_roundtrip_marker_bt4 (pr : Params) (B : Bt4.Bt4Params) (hB : B.ok) (P : FastParams) (hP : P.ok)
+    (dict nice depth dictBuf : Nat) (d : Array UInt8)
+    (hd1 : 1 ≤ dict) (hdb : min dict d.size ≤ dictBuf) (hsz : d.size + dict + 2 < 2 ^ 31)
+    (hn1 : B.minAvailFinishing ≤ nice) (hn2 : nice ≤ 273) (hbuf : dictBuf ≤ END_DIST)
+    (rest : List Nat) (cap : Nat) (hcap : (fastParseBt4 B P dict nice depth d).length < cap) :
+    ∃ bytes, encodeParse pr dictBuf #[] none (cap + 1)
+        (fastParseBt4 B P dict nice depth d ++ [.mtch END_DIST 2]) = some bytes ∧
+      decodeRaw pr dictBuf #[] none (bytes ++ rest) cap
+        = .ok (d.map (fun b => b.toNat)) bytes.length (fastParseBt4 B P dict nice depth d ++ [.mtch END_DIST 2]) := by
+  obtain ⟨c', h', hp, hh⟩ := fast_parse_valid_bt4 B hB P hP dict nice depth dictBuf d hd1 hdb hsz hn1 hn2
+  have hpu := presetUsedOf_empty dictBuf
+  obtain ⟨bytes, he, hdec⟩ := C01.lzma_roundtrip_marker pr dictBuf hbuf #[] (fastParseBt4 B P dict nice depth d) 2
+    (by omega) c' h' (by rw [hpu]; exact hp) rest cap hcap
+  rw [hpu] at he hdec
+  refine ⟨bytes, he, ?_⟩
+  rw [hdec]
+  have : h'.extract (#[] : Array Nat).size h'.size = h' := by
+    simp only [List.size_toArray, List.length_nil, Array.extract_size]
+  rw [this, hh]
+
+/-- the BT4 round trip at the parameters regenerated from /repo's source (`Generated/MfParams.lean`), with the
+    dictionary buffer `LZMAReader` really allocates: every input, every `lc/lp/pb`, every `depth_limit`,
+    `4 ≤ nice_len ≤ 273` (`LZMAOptions::validate` enforces `8 ..= 273`), `1 ≤ dict_size`,
+    `data.size + dict_size + 2 < 2^31` -/
+theorem fast_roundtrip_bt4_generated (pr : Params) (dict nice depth : Nat) (d : Array UInt8)
+    (hd1 : 1 ≤ dict) (hsz : d.size + dict + 2 < 2 ^ 31) (hn1 : 4 ≤ nice) (hn2 : nice ≤ 273)
+    (rest : List Nat) (cap : Nat) :
+    ∃ bytes, encodeParse pr (lzmaReaderDictBuf dict (some d.size) 0) #[] (some d.size) (d.size + 1)
+        (fastParseBt4 MfGen.bt4Params MfGen.fastParams dict nice depth d) = some bytes ∧
+      decodeRaw pr (lzmaReaderDictBuf dict (some d.size) 0) #[] (some d.size) (bytes ++ rest) cap
+        = .ok (d.map (fun b => b.toNat)) bytes.length (fastParseBt4 MfGen.bt4Params MfGen.fastParams dict nice depth d) :=
+  fast_roundtrip_bt4 pr MfGen.bt4Params C01Mf.generated_bt4_params_ok MfGen.fastParams generated_fast_params_ok
+    dict nice depth _ d hd1 (readerDictBuf_ge dict d.size) hsz hn1 hn2 rest cap
+
 /-! ## examples -/
 
 /-- "abcabcabcabcXabcabcabc_abX": literals, a match, repeated matches -/
@@ -149,6 +236,10 @@ example := fast_parse_valid {} (by decide) {} (by decide) 4096 32 0 4096 w1 (by 
 example := fast_roundtrip ⟨3, 0, 2⟩ {} (by decide) {} (by decide) 4096 32 0 4096 w1 (by decide) (by decide)
   (by decide) [] 100
 example := fast_roundtrip_generated ⟨3, 0, 2⟩ 4096 32 0 w1 (by decide) (by decide) [1, 2, 3] 100
+example := fast_parse_valid_bt4 {} (by decide) {} (by decide) 4096 32 0 4096 w1 (by decide) (by decide) (by decide)
+  (by decide) (by decide)
+example := fast_roundtrip_bt4_generated ⟨3, 0, 2⟩ 4096 32 0 w1 (by decide) (by decide) (by decide) (by decide)
+  [1, 2, 3] 100
 
 /-- … and the conclusions are not vacuous: a whole run of the model (dictionary 8, nice_len 8, with the
     small hash tables of `Hc4.tinyHash` so that the kernel can evaluate it): three literals, a match found by
